@@ -43,6 +43,26 @@ SUMMARY = {
 "C18-s2": "final seek is SeekFrom::End(0); needs data beyond the archive in the stream",
 "C19-s2": "entry length read as u64, zero-checked, then narrowed to u32; needs a length varint that is a multiple of 2^32",
 "C20-s2": "async decoder built on binding.get_mut() (the unlimited inner reader); needs async + compressing codec + byte tracking",
+"C01-s3": "add_tile stores the bytes under the hash before remove_tile: re-adding the content an id already has deletes what was just stored; needs add(i,X); add(i,X) with X unshared",
+"C02-s3": "encoder's next_byte = offset + length·max(run_length,1): the offset column writes 0 for an entry that merely coincides; needs a run followed by a back-reference at that offset",
+"C03-s3": "metadata decoded from the bare stream instead of take(json_metadata_length); needs internal compression None or ZStd and bytes after the metadata section",
+"C04-s3": "same mechanism as C01-s1 found independently (chunks_exact); needs spill and an entry count that is not a multiple of the leaf size, then save+reopen",
+"C05-s3": "two cooperating fast paths: the encoder emits nothing for an empty directory, the decoder accepts length 0; needs the empty entry list",
+"C06-s3": "measured root length narrowed to u16 before the budget comparison; needs a pointer root of 65 536·k + (≤ 16 257) bytes (start_size 1, ≥ 16 384 entries)",
+"C07-s3": "async get_tile validates (z, x, x): y is never checked; needs the async API and y ≥ 2^z",
+"C08-s3": "is_valid_zxy accepts z <= 32 (same line as C07-s1, found independently); needs zoom 32 with a large Hilbert index (add overflow)",
+"C09-s3": "min_zoom and center_zoom swap places in struct Header (deku derives the wire layout from declaration order); needs min_zoom ≠ center_zoom",
+"C10-s3": "same mechanism as C01-s3 found independently; needs add(i,X); add(i,X): the store then holds zero copies of X",
+"C11-s3": "a lower-bound skip placed before the leaf/tile dispatch also skips leaf pointers (run_length 0) whose first id ≤ range start; needs leaves and a bounded start",
+"C12-s3": "sync gzip decoder becomes MultiGzDecoder while the async one stays single-member; needs a gzip section with a second member or padding",
+"C13-s3": "lazy tile fetch uses read() instead of read_exact() into a zero-filled buffer; needs a reader returning short reads",
+"C14-s3": "decompress_all caps the output at 1032 × input length through take(); needs highly compressible brotli/zstd input",
+"C15-s3": "offset-column read matched as Ok(val) if val > 0 / _ if i > 0: a read error is taken for 'contiguous'; needs a fault in the offset column after the first entry",
+"C16-s3": "dedup table insert only when ids_by_hash holds > 1 ids (same idea as C10-s1, found independently); needs a backing tile sharing content with one in-memory tile",
+"C17-s3": "two cooperating edits: the writer reserves the header area by writing Header::default(), the walker accepts a zero-length directory; every torn state then opens as an empty archive",
+"C18-s3": "both root-fit tests compare the absolute stream position with 16 384 instead of the P-relative length; needs P near or above 16 K",
+"C19-s3": "walker returns Ok(()) for dir_length == 0 before decoding: Unknown compression with an empty root and no metadata opens; needs exactly that header",
+"C20-s3": "recursive call passes leaf_offset as the leaf-section base; needs two nested leaf levels with the first-level leaf not at offset 0",
 }
 rows = []
 for d in sorted(os.listdir(os.path.join(V, "seeded"))):
